@@ -163,6 +163,9 @@ def _harvest():
             ("0.3.0", "info(composer,'Claude Debussy')."),
             ("0.4.0", "info(performer,'O'Brien')."),
             # every sharp and flat minor key in the 1.0.0 spelling, alone and as the alternative after a slash
+            # tempo indications of several words
+            ("1.0.0", "scoreprop(tempoIndication,[lento,ma,non,troppo],1:1,0,0.0000)."), ("1.0.0", "scoreprop(tempoIndication,[allegro,assai],3:1,0,8.0000)."),
+            ("0.5.0", "info(tempoIndication,[lento,ma,non,troppo])."), ("0.3.0", "info(tempoIndication,[andante,con,moto])."),
             ("1.0.0", "scoreprop(keySignature,F#m,1:1,0,0.0000)."), ("1.0.0", "scoreprop(keySignature,C#m,1:1,0,0.0000)."), ("1.0.0", "scoreprop(keySignature,G#m,1:1,0,0.0000)."),
             ("1.0.0", "scoreprop(keySignature,D#m,1:1,0,0.0000)."), ("1.0.0", "scoreprop(keySignature,A#m,1:1,0,0.0000)."), ("1.0.0", "scoreprop(keySignature,Bbm,1:1,0,0.0000)."),
             ("1.0.0", "scoreprop(keySignature,A/F#m,1:1,0,0.0000)."), ("1.0.0", "scoreprop(keySignature,E/C#m,2:1,0,4.0000).")]
@@ -388,7 +391,7 @@ def _bounded(b):
                 if isinstance(v0_, int):
                     muts = [0, 1, 127]
                 elif isinstance(v0_, float):
-                    muts = [0.0, 0.00005, 1.99995, 12.3456]
+                    muts = [0.0, 0.00005, 1.99995, 12.3456, np.float64(12.3456), np.float64(-0.5), np.float32(1.5)]
                 elif isinstance(v0_, F):
                     muts = [F(1, 4), F(1, 8, 3), F(3, 16), F(1, 4) + F(1, 16), F(1, 4) + F(1, 8) + F(1, 32), F(1, 4, 5) + F(1, 16)]
                 for mv in muts:
@@ -398,6 +401,18 @@ def _bounded(b):
                         setattr(o3, fn, mv)
                         s3 = o3.matchline
                     except Exception:
+                        continue
+                    if isinstance(mv, np.floating):
+                        # a numpy float is a number like any other: the line reads as if the plain float had been given
+                        try:
+                            o3b = copy.copy(obj)
+                            setattr(o3b, fn, float(mv))
+                            s3b = o3b.matchline
+                        except Exception:
+                            s3b = None
+                        if s3b is not None:
+                            b.case("line/mutated_field_survives_the_round_trip", s3 == s3b, dict(case, field=fn, value=repr(mv)),
+                                   "with %r in field %s the line is written %r, with the plain float %r" % (mv, fn, s3[:120], s3b[:120]), nontrivial=False)
                         continue
                     if s3 == s1 and str(mv) != str(v0_):
                         continue  # composite line: the field lives in a nested line object, the copy's attribute is not what is written
